@@ -349,6 +349,12 @@ def perturb_model(rng, model, max_changes=3):
     for n in rng.choice(names, min(len(names), int(rng.integers(1, max_changes + 1))), replace=False):
         n = str(n)
         old = model[n]
+        if rng.random() < 0.25 and old != 0:
+            # a move in a late digit (a sampler near convergence, a finite-difference step): still a different atmosphere
+            new = old * (1.0 + float(rng.choice([-1, 1])) * float(10 ** rng.uniform(-9, -5.3)))
+            model[n] = new
+            out.append((n, old, new))
+            continue
         if n in ('atm_min_pressure', 'atm_max_pressure'):
             new = old * float(10 ** rng.uniform(-0.5, 0.5))
         elif n == 'T' or n.startswith('T_'):
